@@ -289,6 +289,14 @@ def linuxPidExists (k : Kernel) (n : Nat) (mid : List KEv) : Kernel × Out :=
     | .noTgid | .oserror => (k', .bool (k'.listdir.contains n))
   | o => (k.applyAll mid, o)
 
+/-- `_pslinux.pid_exists(n)` when opening `/proc/<n>/status` fails (EACCES under hidepid / an LSM,
+    ENOENT, …) — for a process OR a thread id: every OSError takes the same road, `n in pids()` -/
+def linuxPidExistsDenied (k : Kernel) (n : Nat) (mid : List KEv) : Kernel × Out :=
+  match posixPidExists k n with
+  | .bool false => (k.applyAll mid, .bool false)
+  | .bool true => (k.applyAll mid, .bool ((k.applyAll mid).listdir.contains n))
+  | o => (k.applyAll mid, o)
+
 /-- the argument of `psutil.pid_exists` as Python sees it: an int, a bool (an int subclass: it
     compares and converts like 0 / 1), or a float (by sign; NaN and the infinities are `other`) -/
 inductive PyNum
